@@ -5,6 +5,20 @@ open OdlModel OdlModel.Geometry
 /-! Driver for C19: evaluates the geometry model at `Rat`.  All numbers on the wire are
 exact rationals (the harness sends the exact values of the floats the real code uses). -/
 
+/-- Executable stand-in for the square root (Newton iteration on 100-bit dyadic rationals,
+relative error far below 1e-25 on the data of the correspondence runs). -/
+def roundBits (x : Rat) : Rat :=
+  let k : Nat := 2 ^ 100
+  ((x * k).floor : Int) / (k : Rat)
+
+def sqrtApprox (a : Rat) : Rat :=
+  if a ≤ 0 then 0 else
+  let rec go (n : Nat) (x : Rat) : Rat :=
+    match n with
+    | 0 => x
+    | n + 1 => go n (roundBits ((x + a / x) / 2))
+  go 70 (roundBits ((1 + a) / 2))
+
 def v2? (l : Line) (k : String) : Option (V2 Rat) :=
   match l.rats? k with
   | some [a, b] => some ⟨a, b⟩
@@ -65,15 +79,13 @@ def doPar2 (l : Line) : Option String := do
   let R ← rot2? l
   let g : Par2 Rat := ⟨← v2? l "pos", ← v2? l "t", ← det2? l⟩
   let p ← p1? l
-  let n := g.detToSrcRaw R p
-  some s!"ok rot={sm2 R} ref={s2 (g.refpoint R)} pos={s2 (g.detPoint R p)} d2s={s2 n} nsq={showRat n.normSq} axes={s2 (g.detAxis R)}"
+  some s!"ok rot={sm2 R} ref={s2 (g.refpoint R)} pos={s2 (g.detPoint R p)} d2sn={s2 (g.detToSrc sqrtApprox R p)} axes={s2 (g.detAxis R)} drv={s2 (g.det.deriv p)} nrm={s2 (g.det.normal sqrtApprox p)}"
 
 def doPar3 (l : Line) : Option String := do
   let R ← rot3? l
   let g : Par3 Rat := ⟨← v3? l "pos", ← v3? l "t", ← det3? l⟩
   let p ← p2? l
-  let n := g.detToSrcRaw R p
-  some s!"ok rot={sm3 R} ref={s3 (g.refpoint R)} pos={s3 (g.detPoint R p)} d2s={s3 n} nsq={showRat n.normSq} axes={s3 (g.detAxis0 R)};{s3 (g.detAxis1 R)}"
+  some s!"ok rot={sm3 R} ref={s3 (g.refpoint R)} pos={s3 (g.detPoint R p)} d2sn={s3 (g.detToSrc sqrtApprox R p)} axes={s3 (g.detAxis0 R)};{s3 (g.detAxis1 R)} drv={s3 (g.det.deriv0 p)};{s3 (g.det.deriv1 p)} nrm={s3 (g.det.normal sqrtApprox p)}"
 
 def doFan (l : Line) : Option String := do
   let R ← rot2? l
@@ -82,7 +94,7 @@ def doFan (l : Line) : Option String := do
   let ssh ← v2? l "ssh"
   let dsh ← v2? l "dsh"
   let n := g.detToSrc R ssh dsh p
-  some s!"ok rot={sm2 R} ref={s2 (g.refpoint R dsh)} src={s2 (g.srcPos R ssh)} pos={s2 (g.detPoint R dsh p)} d2s={s2 n} nsq={showRat n.normSq} axes={s2 (g.detAxis R)}"
+  some s!"ok rot={sm2 R} ref={s2 (g.refpoint R dsh)} src={s2 (g.srcPos R ssh)} pos={s2 (g.detPoint R dsh p)} d2s={s2 n} d2sn={s2 (g.detToSrcN sqrtApprox R ssh dsh p)} axes={s2 (g.detAxis R)} drv={s2 (g.det.deriv p)} nrm={s2 (g.det.normal sqrtApprox p)}"
 
 def doCone (l : Line) : Option String := do
   let R ← rot3? l
@@ -93,7 +105,8 @@ def doCone (l : Line) : Option String := do
   let dsh ← v3? l "dsh"
   let turns ← l.rat? "turns"
   let n := g.detToSrc R turns ssh dsh p
-  some s!"ok rot={sm3 R} ref={s3 (g.refpoint R turns dsh)} src={s3 (g.srcPos R turns ssh)} pos={s3 (g.detPoint R turns dsh p)} d2s={s3 n} nsq={showRat n.normSq} axes={s3 (g.detAxis0 R)};{s3 (g.detAxis1 R)}"
+  if Cone.ctorRejects (1 / 10 ^ 20 : Rat) g.d g.axis then some "err:value" else
+  some s!"ok rot={sm3 R} ref={s3 (g.refpoint R turns dsh)} src={s3 (g.srcPos R turns ssh)} pos={s3 (g.detPoint R turns dsh p)} d2s={s3 n} d2sn={s3 (g.detToSrcN sqrtApprox R turns ssh dsh p)} axes={s3 (g.detAxis0 R)};{s3 (g.detAxis1 R)} drv={s3 (g.det.deriv0 p)};{s3 (g.det.deriv1 p)} nrm={s3 (g.det.normal sqrtApprox p)}"
 
 def doPt (l : Line) : Option String :=
   match l.get? "kind" with
@@ -120,18 +133,19 @@ def doShape (l : Line) : Option String := do
   | some sh => some s!"ok shape={showNatList sh} doc={doc}"
   | none => some s!"err doc={doc}"
 
-def showPos2 (g : PosState (V2 Rat)) : String := s2 g.pos
-def showPos3 (g : PosState (V3 Rat)) : String := s3 g.pos
+def showPos2 (g : PosState (V2 Rat)) : String := s!"{s2 g.pos}/{g.cb}"
+def showPos3 (g : PosState (V3 Rat)) : String := s!"{s3 g.pos}/{g.cb}"
 
 /-- `getitem2 how=ctor|frommatrix p=… t=… (m=a11,a12,a21,a22)` → positions of the receiver
 before, of the receiver after `__getitem__`, and of the slice. -/
 def doGetitem2 (l : Line) : Option String := do
   let t ← v2? l "t"
+  let cb ← l.bool? "cb"
   let g ← match l.get? "how" with
-    | some "ctor" => do let p ← v2? l "p"; some (par2Ctor p t)
+    | some "ctor" => do let p ← v2? l "p"; some (par2Ctor p t cb)
     | some "frommatrix" =>
       match l.rats? "m" with
-      | some [a, b, c, d] => some (par2FromMatrix ⟨a, b, c, d⟩ t)
+      | some [a, b, c, d] => some { par2FromMatrix ⟨a, b, c, d⟩ t with cb := cb }
       | _ => none
     | _ => none
   let (g', s) := par2Getitem g
@@ -144,16 +158,18 @@ def doGetitem3 (l : Line) : Option String := do
   let t ← v3? l "t"
   let dflt ← v3? l "dflt"
   let n ← l.nat? "n"
+  let cb ← l.bool? "cb"
   let g ← match l.get? "how" with
     | some "ctor" =>
       match l.get? "p" with
-      | some "none" => some (par3Ctor dflt none t)
+      | some "none" => some (par3Ctor dflt none t cb)
       | _ => do
         let p ← v3? l "p"
-        some (par3Ctor dflt (some p) t)
+        some (par3Ctor dflt (some p) t cb)
     | some "frommatrix" =>
       match l.rats? "m" with
-      | some [a, b, c, d, e, f, g, h, i] => some (par3FromMatrix ⟨a, b, c, d, e, f, g, h, i⟩ t)
+      | some [a, b, c, d, e, f, g, h, i] =>
+          some { par3FromMatrix ⟨a, b, c, d, e, f, g, h, i⟩ t with cb := cb }
       | _ => none
     | _ => none
   let rec go (k : Nat) (g : PosState (V3 Rat)) (acc : List String) : List String :=
@@ -161,7 +177,7 @@ def doGetitem3 (l : Line) : Option String := do
     | 0 => acc.reverse
     | k + 1 =>
       let (g', s) := par3Getitem dflt g
-      go k g' (s!"{showPos3 g'};{showPos3 s}" :: acc)
+      go k g' (s!"{showPos3 g'}&{showPos3 s}" :: acc)
   some s!"ok before={showPos3 g} steps={"|".intercalate (go n g [])}"
 
 /-- `factory kind=par|fan|coneh …` detector extents -/
@@ -174,14 +190,19 @@ def doFactory (l : Line) : Option String := do
   | some "coneh" => do
       let zmax ← l.rat? "zmax"; let hyp ← l.rat? "hyp"; let rs ← l.rat? "rs"; let rd ← l.rat? "rd"
       if hyp = 0 then none else some s!"ok hh={showRat (coneHalfHeightRaw zmax hyp rs rd)}"
+  | some "helh" => do
+      let pt ← l.rat? "pt"; let rho ← l.rat? "rho"; let rs ← l.rat? "rs"; let rd ← l.rat? "rd"
+      let ang ← l.rat? "ang"
+      if rs = 0 then none else some s!"ok hh={showRat (helicalHalfHeight pt rho rs rd ang)}"
   | some "coord" => do
       let rs ← l.rat? "rs"; let rd ← l.rat? "rd"; let xc ← l.rat? "xc"; let xt ← l.rat? "xt"
       if rs + xc = 0 then none else some s!"ok u={showRat (fanDetCoord rs rd xc xt)}"
   | _ => none
 
 /-- `frame kind=2d|axis|euler v=<normalised given vector>` → the derived default frame.
-Opposite vectors (the collinear branch of `rotation_matrix_from_to`) are outside the model:
-`err:opposite`. -/
+Opposite and nearly opposite vectors (`1 + ⟨u,v⟩ < 1/1000`: the collinear branch of
+`rotation_matrix_from_to`, and the region where the division by `1 + ⟨u,v⟩` is
+ill-conditioned) are outside the model: `err:opposite`. -/
 def doFrame (l : Line) : Option String := do
   match l.get? "kind" with
   | some "2d" => do
@@ -190,15 +211,21 @@ def doFrame (l : Line) : Option String := do
       some s!"ok prin={s2 q} a0={s2 a}"
   | some "axis" => do
       let a ← v3? l "v"
-      if 1 + V3.dot (⟨0, 0, 1⟩ : V3 Rat) a = 0 then some "err:opposite" else
+      if 1 + V3.dot (⟨0, 0, 1⟩ : V3 Rat) a < 1 / 1000 then some "err:opposite" else
       let (q, pos, a0, a1) := frameAxis a
       some s!"ok prin={s3 q} pos={s3 pos} a0={s3 a0} a1={s3 a1}"
   | some "euler" => do
       let p ← v3? l "v"
-      if 1 + V3.dot (⟨0, 1, 0⟩ : V3 Rat) p = 0 then some "err:opposite" else
+      if 1 + V3.dot (⟨0, 1, 0⟩ : V3 Rat) p < 1 / 1000 then some "err:opposite" else
       let (q, a0, a1) := frameEuler p
       some s!"ok prin={s3 q} a0={s3 a0} a1={s3 a1}"
   | _ => none
+
+/-- `conector d=… ax=…` → does the cone beam constructor accept these (normalised) vectors? -/
+def doConeCtor (l : Line) : Option String := do
+  let d ← v3? l "d"
+  let a ← v3? l "ax"
+  some (if Cone.ctorRejects (1 / 10 ^ 20 : Rat) d a then "err:value" else "ok")
 
 def handle (l : Line) : Option String :=
   match l.op with
@@ -208,6 +235,7 @@ def handle (l : Line) : Option String :=
   | "getitem3" => doGetitem3 l
   | "factory" => doFactory l
   | "frame" => doFrame l
+  | "conector" => doConeCtor l
   | _ => none
 
 def main : IO Unit := driverLoop handle
